@@ -120,6 +120,10 @@ func KEMPubOfPriv(sk any) string { return "" }
 //@ spec opaque
 func KEMPubValid(id hpke.KEMID, enc string) bool { return false }
 
+//@ lemma auto trusted
+//@ ensures KEMPubValid(id, enc) ==> len(enc) == KEMNpk(id)
+func axKEMPubValidLen(id hpke.KEMID, enc string) {}
+
 //@ ext (github.com/cisco/go-hpke.KEMScheme).DeserializePublicKey func(k hpke.KEMScheme, enc []byte) (pk hpke.KEMPublicKey, err error)
 //@ ensures (err == nil) == KEMPubValid(KEMIdOf(k), string(enc))
 //@ ensures err == nil ==> pk != nil && KEMPubEnc(pk) == string(enc) && len(enc) == KEMNpk(KEMIdOf(k))
